@@ -255,6 +255,19 @@ def inactive_scratch(db, cx):
             brs = f.branch_blocks(lambda c, _b: c.get("renum", "").endswith("TrackStatus::inactive")
                                   and c.get("op") in ("==", "!=")
                                   and C + "SimTrackView::status" in (c.get("lcalls", []) + c.get("rcalls", [])))
+            # boolean locals that hold the comparison (`bool const has_track = status != inactive`)
+            flags = {}
+            for (_b, _i, d) in f.events("def"):
+                if d.get("kind") == "decl" and "bool" in (d.get("ty") or "") \
+                        and any(r.endswith("TrackStatus::inactive") for r in d.get("refs", [])) \
+                        and C + "SimTrackView::status" in d.get("calls", []):
+                    rhs = (d.get("rhs") or "")
+                    if "&&" in rhs or "||" in rhs:
+                        continue
+                    negs = rhs.count("!")          # each `!` and the one inside `!=` flips the meaning
+                    flags[d["var"]] = (negs % 2 == 1)         # True: the flag means "not inactive"
+            fbrs = [(br, v) for v in flags for br in f.branch_blocks(
+                lambda c, _b, v=v: c.get("core") == v or (c.get("refs") == [v] and not c.get("calls")))]
             for (b, i, e) in f.events("call"):
                 if e["callee"] != C + "PhysicsStepView::secondaries":
                     continue
@@ -264,6 +277,9 @@ def inactive_scratch(db, cx):
                     # the edge on which the status is NOT inactive
                     edge = f.cond_polarity_edge(br, c.get("op") == "!=")
                     if f.guarded_by_edge((b, i), br, edge):
+                        ok = True
+                for (br, v) in fbrs:
+                    if f.guarded_by_edge((b, i), br, f.cond_polarity_edge(br, flags[v])):
                         ok = True
                 n += 1
                 cx.ob("C02.6-inactive-scratch", "%s reads the secondaries only for a slot that is not inactive"
